@@ -75,14 +75,16 @@ class _Ctx:
 _OPTS = {}
 
 
-def _options(proxyauth_spec, mode):
-    k = (proxyauth_spec, mode)
+def _options(proxyauth_spec, mode, stream_large_bodies=None):
+    k = (proxyauth_spec, mode, stream_large_bodies)
     if k not in _OPTS:
         from typing import Optional
 
         o = sansio.make_options(connection_strategy="lazy")
         o.add_option("proxyauth", Optional[str], None, "")
         o.update(proxyauth=proxyauth_spec)
+        if stream_large_bodies:
+            o.update(stream_large_bodies=stream_large_bodies)
         _OPTS[k] = o
     return _OPTS[k]
 
@@ -222,11 +224,11 @@ def _basic(cred):
 
 
 class Path:
-    def __init__(self, X, path, spec, pa=None):
+    def __init__(self, X, path, spec, pa=None, opts=None):
         self.X, self.path, self.spec = X, path, spec
         self.proxy_hdr = path in ("regular", "connect", "upstream")
         mode = {"regular": "regular", "connect": "regular", "upstream": "upstream:http://upstream.test:3128", "reverse": "reverse:http://origin.test:80", "socks5": "socks5"}[path]
-        self.opts = _options(spec, "p")
+        self.opts = opts or _options(spec, "p")
         self.ctx = ctx = sansio.make_context(self.opts, mode=mode)
         if path in ("regular", "connect"):
             top = layers.HttpLayer(ctx, HTTPMode.regular)
@@ -290,6 +292,7 @@ class Path:
 
 
 def _request(path, i, cred, proxy_hdr, inner=False, body=False):
+    """body: False | True (Content-Length) | "chunked" (length unknown when the head is judged)"""
     marker = f"/req{i}"
     method = "POST" if body else "GET"
     if inner or path == "reverse":
@@ -298,6 +301,9 @@ def _request(path, i, cred, proxy_hdr, inner=False, body=False):
         line = f"{method} http://origin.test{marker} HTTP/1.1\r\nHost: origin.test\r\n"
     if cred is not None:
         line += f"{'Proxy-Authorization' if proxy_hdr else 'Authorization'}: {_basic(cred)}\r\n"
+    if body == "chunked":
+        line += "Transfer-Encoding: chunked\r\n"
+        return (line + "X-Marker: m%d\r\n\r\n" % i).encode(), b"6\r\nsecret\r\n0\r\n\r\n", marker.encode()
     if body:
         line += "Content-Length: 6\r\n"
     return (line + "X-Marker: m%d\r\n\r\n" % i).encode(), (b"secret" if body else b""), marker.encode()
@@ -312,9 +318,12 @@ def h_paths(X, nreq, with_colon):
     path = X.choose("path", ["regular", "connect", "reverse", "upstream", "socks5"])
     spec = X.choose("proxyauth", ["user:pass", "any"])
     menu = ["none", "wrong", "valid"] + (["colon"] if with_colon else [])
-    opts = _options(spec, "p")
+    # a tiny stream_large_bodies threshold makes the layer switch to streaming while it is still buffering a body of
+    # unknown length -- after ProxyAuth has already answered the request head
+    slb = X.choose("stream_large_bodies", [None, "3"])
+    opts = _options(spec, "p", slb)
     with _Ctx(opts):
-        P = Path(X, path, spec)
+        P = Path(X, path, spec, opts=opts)
         d, ctx = P.d, P.ctx
         tunnel = False  # CONNECT / SOCKS5 established (and therefore authenticated)
         if path == "socks5":
@@ -351,7 +360,7 @@ def h_paths(X, nreq, with_colon):
             body = b""
             if tunnel:
                 cn, cred = "none", None  # authenticated tunnel: inner requests carry no credentials
-                data, body, marker = _request(path, i, None, False, inner=True, body=X.boolean("body"))
+                data, body, marker = _request(path, i, None, False, inner=True, body=X.choose("body", [False, True, "chunked"]))
                 expect_ok = True
                 kind = "inner"
             elif path == "connect" and X.boolean("send_connect"):
@@ -364,7 +373,7 @@ def h_paths(X, nreq, with_colon):
             else:
                 cn = X.choose("cred", menu)
                 cred = CREDS[cn]
-                data, body, marker = _request(path, i, cred, P.proxy_hdr, body=X.boolean("body"))
+                data, body, marker = _request(path, i, cred, P.proxy_hdr, body=X.choose("body", [False, True, "chunked"]))
                 expect_ok = _accepts(spec, cred)
                 kind = "request"
             key = f"C20/path/{path}/{kind}/{cn}"
@@ -395,7 +404,7 @@ def h_paths(X, nreq, with_colon):
             X.check(marker in new_srv, refused_key, f"validator accepts {cred}, request not forwarded; client got {P.client_new()[:100]!r}")
             head = new_srv.split(b"\r\n\r\n")[0].lower()
             X.check(b"authorization" not in head, key + "/credentials-forwarded", f"forwarded head still carries credentials: {new_srv!r}")
-            X.check(b"x-marker: m%d" % i in head and new_srv.endswith(body), key + "/head-damaged", f"{new_srv!r}")
+            X.check(b"x-marker: m%d" % i in head and (new_srv.endswith(body) or (b"secret" in new_srv and b"chunked" in data)), key + "/head-damaged", f"{new_srv!r}")
             P.answer_servers(before)
             out = P.client_new()
             X.check(_status(out) == 200 and out.endswith(b"ok"), key + "/response-lost", f"client got {out!r}")
